@@ -477,6 +477,29 @@ func readerReuse(c *dctx, docs []docFile, dir string) {
 		os.WriteFile(p, pdfw.SimplePDF(pages), 0o644)
 		pool = append(pool, docFile{p, "pdf", "PDF with a dangling reference inside a page's /Contents array"})
 	}
+	// PDFs with a page whose content stream is damaged in the middle of a string operand
+	// (it ends inside a literal string, or a hex string holds a stray character): what the
+	// reader was collecting when it gave up is nobody else's text
+	for i := 0; i < c.N(6, 24); i++ {
+		r := c.Rand("reuse-cutoff", i)
+		tk := fw.NewTokens(r)
+		np := 1 + r.Intn(3)
+		bad := r.Intn(np)
+		var pages []pdfw.SimplePage
+		for pn := 0; pn < np; pn++ {
+			pg := pdfw.SimplePage{W: 612, H: 792}
+			if pn == bad {
+				pg.CutOff = []string{"string", "hex"}[i%2]
+			}
+			for l := 0; l < 3+r.Intn(3); l++ {
+				pg.Items = append(pg.Items, pdfw.SimpleItem{X: 72, Y: 700 - 16*float64(l), Size: 11, Text: tk.Next() + " " + tk.Next()})
+			}
+			pages = append(pages, pg)
+		}
+		p := filepath.Join(dir, fmt.Sprintf("reusecut%03d.pdf", i))
+		os.WriteFile(p, pdfw.SimplePDF(pages), 0o644)
+		pool = append(pool, docFile{p, "pdf", "PDF with a content stream damaged inside a string operand"})
+	}
 	// PDFs whose pages share one inherited Resources dictionary (direct /Font
 	// sub-dictionary) while forms bring their own resources naming other fonts
 	// /F1…: anything one page's extraction leaves behind in the shared, cached
